@@ -290,8 +290,15 @@ P_NoDeath == \A r \in Readers : rd'[r].pc = "dead" => rd[r].pc = "dead"
 \* committed messages a reader positioned at or before them has not received
 Owed(r) == {o \in 0..hw : o >= rd[r].start /\ ~InSeq(o, del[r])}
 
-\* a reader is told "end of read-only log" only after it received everything
-P_RoEnd == \A r \in Readers : (rd'[r].pc = "rodone" /\ rd[r].pc # "rodone") => Owed(r)' = {}
+\* a reader is told "end of read-only log" only when the log is read-only, the
+\* HW has reached the log end (appended messages that are not committed yet
+\* will be, and the reader is positioned before them) and it received everything
+P_RoEnd == \A r \in Readers : (rd'[r].pc = "rodone" /\ rd[r].pc # "rodone") =>
+              (ro' /\ hw' = Newest' /\ Owed(r)' = {})
+
+\* the same over a run of several steps (other processes may have moved after
+\* the reader was told): only the part that later steps cannot change
+P_RoEndRun == \A r \in Readers : (rd'[r].pc = "rodone" /\ rd[r].pc # "rodone") => Owed(r)' = {}
 
 P_Step == P_HW /\ P_Del /\ P_NoDeath /\ P_RoEnd
 
